@@ -2,7 +2,9 @@
 
 pub mod build;
 pub mod composite;
+pub mod inotify;
 pub mod life;
+pub mod mt;
 
 pub type Scenario = fn();
 
@@ -16,6 +18,11 @@ pub const ALL: &[(&str, Scenario)] = &[
     ("teardown", life::teardown),
     ("composite", composite::composite),
     ("build", build::build),
+    ("inotify", inotify::inotify),
+    ("mt-sq", mt::mt_sq),
+    ("mt-life", mt::mt_life),
+    ("mt-wake", mt::mt_wake),
+    ("mt-pool", mt::mt_pool),
 ];
 
 pub fn find(name: &str) -> Option<Scenario> {
